@@ -26,7 +26,7 @@ na = [{"property_id": p, "reason": claims['not_applicable'].get(p, "check not bu
 m = {
  "version": 1,
  "setup_cmd": "./setup.sh",
- "hooks": {"guard": "verif", "enable": "go build -tags verif ./...  (contracts, specification functions, lemmas and ghost clients live in /repo/<pkg>/verif_contracts.go, //go:build verif; add-only files)",
+ "hooks": {"guard": "verif", "enable": "go build -tags verif ./...  (contracts, specification functions, lemmas and ghost clients live in /repo/<pkg>/verif_*.go (verif_contracts.go, verif_builders.go, verif_relay.go, verif_client.go), //go:build verif; add-only files)",
            "baseline_off_cmd": "for m in $(cat /w/out/gomods.txt); do MF=$(cd /repo/$m && . /w/out/goenv.sh && gomodflag); (cd /repo/$m && go test $MF -json -vet=off -count=1 -timeout 25m ./...); done",
            "source_commits": src, "add_only": True},
  "engines": [{"name": "govc", "path": "engine", "serves_properties": [c['property_id'] for c in checks],
